@@ -107,17 +107,23 @@ def c18_add(w):
                 for rt in O.sorted_rules(Tt["rules"])]
     want_rules = O.sorted_rules(O.sorted_rules(St["rules"]) + rerooted(R))
     want_objs = [build_rule(rt, V) for rt in want_rules]
-    if len(S.rules) != len(want_objs) or any(snap(a) != snap(b) for a, b in zip(S.rules, want_objs)):
+
+    def rsnap(rule):
+        # a re-rooted path is "R followed by p": compared part by part (the path-level is_concrete flag of a
+        # concatenation is not part of the statement)
+        return (snap(rule.path.parts), snap(rule.path.DATUM_TYPE), snap(rule.path.MULTI_TYPE), snap(rule.condition),
+                snap(rule.cast), snap(rule.doc))
+    if len(S.rules) != len(want_objs) or any(rsnap(a) != rsnap(b) for a, b in zip(S.rules, want_objs)):
         return Fail("rules-after-add", f"S.rules after add_schema(T, {show_path(R)})", [repr(x.path) for x in S.rules],
                     [repr(x.path) for x in want_objs])
     # second, independent addition of the same T
     S2 = build_schema(St, V)
     S2.add_schema(T, build_path(R2, V))
     want2 = [build_rule(rt, V) for rt in O.sorted_rules(O.sorted_rules(St["rules"]) + rerooted(R2))]
-    if len(S2.rules) != len(want2) or any(snap(a) != snap(b) for a, b in zip(S2.rules, want2)):
+    if len(S2.rules) != len(want2) or any(rsnap(a) != rsnap(b) for a, b in zip(S2.rules, want2)):
         return Fail("second-addition-not-independent", f"adding the same T under {show_path(R2)} after {show_path(R)}",
                     [repr(x.path) for x in S2.rules], [repr(x.path) for x in want2])
-    if any(snap(a) != snap(b) for a, b in zip(S.rules, want_objs)):
+    if any(rsnap(a) != rsnap(b) for a, b in zip(S.rules, want_objs)):
         return Fail("first-addition-changed-by-second", "S changed when T was added to another schema")
     # behaviour: S' on doc == S on doc + T on doc[R]
     try:
@@ -161,7 +167,8 @@ def _allowed_exc(e, V):
                       V.e.MalformedRuleSpec)):
         return True
     if isinstance(e, KeyError):
-        return bool(e.args) and e.args[0] in ("path", "condition")
+        # the missing mandatory field: of a rule, or 'rules' of a schema document (YAML route)
+        return bool(e.args) and e.args[0] in ("path", "condition", "rules")
     if type(e) in (TypeError, ValueError):
         return True
     return False
